@@ -274,11 +274,25 @@ def check_true_color(prog, rep):
                 t_ = t_[1] if t_[0] == 'cast' else t_[2][0]
             return t_
         if backend == 'numpy':
+            FULL = ('slice', None, None, None)
+
+            def plane(t_):
+                """(k, lead) when t_ is `<array>[<lead>, k]` with a constant channel k"""
+                if t_[0] == 'index' and t_[2][0] == 'tuple' and t_[2][1] and t_[2][1][-1][0] == 'const':
+                    return t_[2][1][-1][1], t_[2][1][:-1]
+                return None
             for tgt, val, guards, node in w.stores:
-                if tgt[0] == 'index' and tgt[2][0] == 'tuple' and tgt[2][1] and tgt[2][1][-1][0] == 'const':
-                    k_ = tgt[2][1][-1][1]
-                    lead = tgt[2][1][:-1]
-                    mask = None if all(x == ('slice', None, None, None) for x in lead) else (lead[0] if len(lead) == 1 else ('tuple', lead))
+                pl = plane(tgt)
+                if pl is not None:
+                    k_, lead = pl
+                    mask = None if all(x == FULL for x in lead) else (lead[0] if len(lead) == 1 else ('tuple', lead))
+                    chan.setdefault(k_, []).append((mask, val))
+                elif tgt[0] == 'index' and plane(tgt[1]) is not None and all(x == FULL for x in plane(tgt[1])[1]):
+                    # a store through the view of one whole channel plane (`a = out[:, :, 3]; a[mask] = 0`)
+                    k_ = plane(tgt[1])[0]
+                    idx = tgt[2]
+                    lead = idx[1] if idx[0] == 'tuple' else (idx,)
+                    mask = None if all(x == FULL for x in lead) else (lead[0] if len(lead) == 1 else ('tuple', lead))
                     chan.setdefault(k_, []).append((mask, val))
         else:
             st = strip(ret) if ret is not None else None
@@ -320,18 +334,35 @@ def check_true_color(prog, rep):
             return kinds == {'nan', 'le'}
         oka, whya = None, 'alpha channel not understood: %s' % [(tshow(a_, 40) if a_ else None, tshow(b_, 60)) for a_, b_ in chan.get(3, [])]
         a3 = chan.get(3, [])
+
+        def settled(ws):
+            """the writes that survive: everything before the last whole-array write is overwritten"""
+            last = max([i_ for i_, (m_, v2) in enumerate(ws) if m_ is None], default=0)
+            return ws[last:]
+        ALLOC0 = {'numpy.full': None, 'numpy.full_like': None, 'numpy.empty': (), 'numpy.empty_like': (), 'numpy.zeros': ('const', 0),
+                  'numpy.zeros_like': ('const', 0), 'numpy.ones': ('const', 1), 'numpy.ones_like': ('const', 1)}
+        a3 = settled(a3)
         if len(a3) == 1 and a3[0][0] is None:
             v_ = strip(a3[0][1])
             if v_[0] == 'call' and v_[1] in ('numpy.where', 'dask.array.where') and len(v_[2]) == 3:
                 oka = is_mask(v_[2][0]) and v_[2][1] == ('const', 0) and v_[2][2] == ('const', 255)
                 whya = 'where(%s, %s, %s)' % (tshow(v_[2][0], 80), v_[2][1], v_[2][2])
-            elif v_[0] == 'call' and v_[1] in ('numpy.full', 'numpy.full_like') and len(v_[2]) >= 2 and v_[2][1] == ('const', 255):
-                # a separate alpha array: filled with 255, then 0 under the mask, then stored
-                ms = [(t2[2], v2) for t2, v2, g2, n2 in w.stores if t2[0] == 'index' and tkey(t2[1]) == tkey(v_)]
-                if len(ms) == 1:
-                    oka = ms[0][1] == ('const', 0) and is_mask(ms[0][0])
-                    whya = 'full(.., 255), then 0 where %s' % tshow(ms[0][0], 80)
-        elif len(a3) == 2 and a3[0][0] is None and a3[1][0] is not None:
+            elif v_[0] == 'call' and v_[1] in ALLOC0:
+                # a separate alpha array: allocated, written (whole fills and masked stores, in program order), then stored
+                init = ALLOC0[v_[1]]
+                if init is None:
+                    init = v_[2][1] if len(v_[2]) >= 2 else dict(v_[3]).get('fill_value')
+                ws = [(None, init)] if init not in ((), None) else []
+                for t2, v2, g2, n2 in w.stores:
+                    if t2[0] == 'index' and tkey(t2[1]) == tkey(v_) and not g2:
+                        lead = t2[2][1] if t2[2][0] == 'tuple' else (t2[2],)
+                        ws.append((None if all(x == ('slice', None, None, None) or x == ('const', Ellipsis) for x in lead) else
+                                   (lead[0] if len(lead) == 1 else ('tuple', lead)), v2))
+                    elif t2[0] == 'index' and tkey(t2[1]) == tkey(v_):
+                        ws = None
+                        break
+                a3 = settled(ws) if ws else []
+        if len(a3) == 2 and a3[0][0] is None and a3[1][0] is not None:
             oka = a3[0][1] == ('const', 255) and a3[1][1] == ('const', 0) and is_mask(a3[1][0])
             whya = 'filled with %s, then %s where %s' % (a3[0][1], a3[1][1], tshow(a3[1][0], 80))
         rep.add('M5-alpha', f, entry, 'alpha', f.node.lineno, oka,
